@@ -155,3 +155,43 @@ def always_random(t, _depth=0):
         vals = [v for v in inc.values() if v is not t]
         return bool(vals) and all(always_random(v, _depth + 1) for v in vals) if _depth < 8 else False
     return bool(Q.rngs(Q.leaves(t)))
+
+
+NARROW_INTS = {"u8": 1, "i8": 1, "u16": 2, "i16": 2, "u32": 4, "i32": 4, "u64": 8, "i64": 8}
+
+
+def narrow_random(t, min_bytes=16):
+    """reasons why a random value provably carries fewer than `min_bytes` random bytes on some path: the random draw fills
+    only a constant sub-window of an otherwise constant buffer, or a random value passes through a cast to a narrow
+    integer.  Only what is decidable from the term is reported (an empty list is not a proof of full width)."""
+    out = []
+    for x in subterms(t):
+        if x.op == "updrng":
+            base, lo, hi, val = x.args
+            if is_t(lo) and is_t(hi) and lo.op == "int" and hi.op == "int" and not Q.rngs(Q.leaves(base)) and Q.rngs(Q.leaves(val)):
+                n = hi.args[0] - lo.args[0]
+                if n < min_bytes:
+                    out.append("only bytes [%d, %d) of the decoded buffer are random (%d bytes)" % (lo.args[0], hi.args[0], n))
+        elif x.op == "cast" and len(x.args) >= 3 and x.args[2] in NARROW_INTS and NARROW_INTS[x.args[2]] < min_bytes and \
+                Q.rngs(Q.leaves(x.args[0])):
+            out.append("random value narrowed to %s" % x.args[2])
+    return sorted(set(out))
+
+
+def complete_repr(t):
+    """the field element whose COMPLETE canonical byte encoding t is (to_repr output, possibly copied / collected /
+    borrowed as a whole); None when t is anything else (a window of it, a padded partial copy ...)"""
+    n = 0
+    while is_t(t) and n < 32:
+        n += 1
+        if t.op in ("refv", "conv", "collected", "deref", "cloned_iter", "iter"):
+            t = t.args[0]
+        elif t.op == "copied" and len(t.args) >= 1:
+            t = t.args[0]
+        elif t.op == "as_array" and t.args[1] == 24:
+            t = t.args[0]
+        elif t.op == "fp_to_repr":
+            return t.args[0]
+        else:
+            return None
+    return None
